@@ -228,15 +228,21 @@ def gen_program(rng, max_calls=8):
     ncalls = rng.randint(1, max_calls)
     calls = []
     written = {}
-    for _ in range(ncalls):
+    # some groups are first used in a later call only (writer session state: which parents were declared)
+    first_call = {g: (rng.randint(1, ncalls - 1) if (ncalls > 1 and rng.random() < 0.35) else 0) for g in groups}
+    for ci in range(ncalls):
         objs = []
         if rng.random() < 0.3:
             objs.append({'kind': 'root', 'props': gen_props(rng)})
         for g in groups:
-            if rng.random() < 0.25:
+            if ci < first_call[g]:
+                continue
+            if rng.random() < (0.6 if ci == first_call[g] and ci > 0 else 0.25):
                 objs.append({'kind': 'group', 'group': g, 'props': gen_props(rng)})
         for ch in chans:
-            if rng.random() < 0.6:
+            if ci < first_call[ch['group']]:
+                continue
+            if rng.random() < (0.9 if ci == first_call[ch['group']] and ci > 0 else 0.6):
                 objs.append({'kind': 'channel', 'group': ch['group'], 'channel': ch['channel'],
                              'data': gen_channel_data(rng, ch['kind']), 'props': gen_props(rng, light=True)})
         # a property assigned earlier is assigned again with the same value through another type
@@ -250,7 +256,7 @@ def gen_program(rng, max_calls=8):
                     o['props'] = [x for x in (o.get('props') or []) if x[0] != name] + [[name, nv]]
             for x in (o.get('props') or []):
                 written.setdefault(key, []).append(x)
-        if rng.random() < 0.3:
+        if rng.random() < 0.45:
             rng.shuffle(objs)
         if rng.random() < 0.02 and objs:
             objs.append(dict(objs[0]))        # duplicate path: the writer must reject the call
